@@ -373,7 +373,9 @@ inline int engine_main(int argc, char** argv, const std::vector<Sub>& subs) {
   if (mode == "run" && argc >= 3) {
     bool thorough = std::string(argv[2]) == "thorough";
     auto t0 = std::chrono::steady_clock::now();
+    std::string skip = std::getenv("VERIF_SKIP") ? std::string(",") + std::getenv("VERIF_SKIP") + "," : "";
     for (auto& s : subs) {
+      if (skip.find("," + s.name + ",") != std::string::npos) continue;
       bool sel = argc == 3;
       for (int a = 3; a < argc; a++) if (s.property == argv[a] || s.name.rfind(argv[a], 0) == 0) sel = true;
       if (!sel) continue;
